@@ -4,6 +4,7 @@
 import RSVerif.Proofs.Envelope
 import RSVerif.Proofs.SrcEnvelopeSpec
 import RSVerif.Proofs.SrcDefaultSpec
+import RSVerif.Proofs.SrcGlueSpec
 
 namespace RS
 
@@ -109,5 +110,44 @@ theorem source_default_codec_is_rule {W : Type} (hi lo : W → Nat → Nat → N
             | .ok false, .ok () => (Res.Ok (), DInner.Low (gl w k r sb)))) :=
   ⟨(src_default_new_spec hi lo gh gl hhi hlo dflt work k r sb).1,
    src_default_reset_spec hi lo gh gl hhi hlo _ (Or.inl rfl) (DInner.Low w) w (Or.inr rfl) k r sb⟩
+
+open RS.SrcG RS.RustG in
+/-- the API LAYERS of today's source (`Gen/SrcGlue.lean`, regenerated by `/verif/translate/rs2lean_glue.py` on every
+    run: the 42 wrapper methods of `ReedSolomonEncoder` / `ReedSolomonDecoder`, the provided trait methods of
+    `Rate` / `RateEncoder` / `RateDecoder`, and the forwarding methods of the dedicated and default-rate codecs):
+    every one hands ALL its parameters, in order, to the method of the same name of the object it wraps;
+    `ReedSolomonEncoder::new` / `ReedSolomonDecoder::new` build the default-rate codec on `DefaultEngine` with no
+    recycled work, and `supports` is `DefaultRate::supports` — so the layers cannot disagree about the
+    configuration, the rate or the shards -/
+theorem source_api_layers_delegate :
+    holds "ReedSolomonEncoder::new" 3 (isRsNew "DefaultRateEncoder") = true ∧
+    holds "ReedSolomonDecoder::new" 3 (isRsNew "DefaultRateDecoder") = true ∧
+    holds "ReedSolomonEncoder::supports" 2 (isCallDeleg "DefaultRate::supports" 2) = true ∧
+    holds "ReedSolomonDecoder::supports" 2 (isCallDeleg "DefaultRate::supports" 2) = true ∧
+    holds "ReedSolomonEncoder::add_original_shard" 1 (isMethodDeleg (isSelfField "0") "add_original_shard" 1) = true ∧
+    holds "ReedSolomonEncoder::encode" 0 (isMethodDeleg (isSelfField "0") "encode" 0) = true ∧
+    holds "ReedSolomonEncoder::reset" 3 (isMethodDeleg (isSelfField "0") "reset" 3) = true ∧
+    holds "ReedSolomonDecoder::add_original_shard" 2 (isMethodDeleg (isSelfField "0") "add_original_shard" 2) = true ∧
+    holds "ReedSolomonDecoder::add_recovery_shard" 2 (isMethodDeleg (isSelfField "0") "add_recovery_shard" 2) = true ∧
+    holds "ReedSolomonDecoder::decode" 0 (isMethodDeleg (isSelfField "0") "decode" 0) = true ∧
+    holds "ReedSolomonDecoder::reset" 3 (isMethodDeleg (isSelfField "0") "reset" 3) = true ∧
+    holds "DefaultRateEncoder::add_original_shard" 1 (isInnerDeleg "InnerEncoder" "add_original_shard" 1) = true ∧
+    holds "DefaultRateEncoder::encode" 0 (isInnerDeleg "InnerEncoder" "encode" 0) = true ∧
+    holds "DefaultRateDecoder::add_original_shard" 2 (isInnerDeleg "InnerDecoder" "add_original_shard" 2) = true ∧
+    holds "DefaultRateDecoder::add_recovery_shard" 2 (isInnerDeleg "InnerDecoder" "add_recovery_shard" 2) = true ∧
+    holds "DefaultRateDecoder::decode" 0 (isInnerDeleg "InnerDecoder" "decode" 0) = true ∧
+    holds "Rate::encoder" 5 (isCallDeleg "Self::RateEncoder::new" 5) = true ∧
+    holds "Rate::decoder" 5 (isCallDeleg "Self::RateDecoder::new" 5) = true ∧
+    (∀ c ∈ ["HighRateEncoder", "LowRateEncoder", "HighRateDecoder", "LowRateDecoder"],
+      holds (c ++ "::new") 5 isRateNew = true ∧ holds (c ++ "::reset") 3 isRateReset = true ∧
+      holds (c ++ "::into_parts") 0 isParts = true) := by
+  have h1 := rs_wrappers_delegate
+  have h2 := trait_defaults_delegate
+  have h3 := dedicated_codecs_delegate
+  have h4 := default_codecs_delegate
+  refine ⟨h1.2.2.2.1, h1.2.2.2.2.2.2.2.2.2.1, h1.2.2.2.2.1, h1.2.2.2.2.2.2.2.2.2.2, h1.1, h1.2.1, h1.2.2.1,
+    h1.2.2.2.2.2.1, h1.2.2.2.2.2.2.1, h1.2.2.2.2.2.2.2.1, h1.2.2.2.2.2.2.2.2.1,
+    h4.1, h4.2.1, h4.2.2.2.1, h4.2.2.2.2.1, h4.2.2.2.2.2.1, h2.1, h2.2.1, ?_⟩
+  decide
 
 end RS
